@@ -3795,3 +3795,23 @@ B("C17-create-new-does-not-look-for-an-existing-marker", "C17", "C17:R-C17.6:db:
             return Err(std::io::Error::from(std::io::ErrorKind::AlreadyExists).into());
         }
 """, "")
+
+# ---- repairs 35 / 36 reverted
+B("F35-C12-delete-keyspace-without-journal-maintenance", "C12", "C12:R-C12.13:db::Database::delete_keyspace", DB,
+  """        let maintenance = self
+            .supervisor
+            .journal_manager
+            .write()
+            .expect("lock is poisoned")
+            .maintenance();
+""", """        let maintenance: crate::Result<()> = Ok(());
+""")
+B("F36-C12-batch-into-deleted-keyspace-accepted", "C12", "C12:R-C12.14:batch::WriteBatch::commit", BATCH,
+  """        if self
+            .data
+            .iter()
+            .any(|item| item.keyspace.is_deleted.load(std::sync::atomic::Ordering::Relaxed))
+        {
+            return Err(crate::Error::KeyspaceDeleted);
+        }
+""", "")
